@@ -3,7 +3,7 @@
 (* events are Setup / Relax (one per incident edge, from the decorators) /    *)
 (* End (result).  Termination tests, pops and the end of an expansion are     *)
 (* not observable from outside and are silent steps of the specification.     *)
-EXTENDS Search, TraceLib
+EXTENDS Search, TraceLib, Frontier
 
 VARIABLE l
 tvars == <<scn, queue, g, tree, cur, lastE, todo, iters, outcome, pc, reop, l>>
@@ -20,8 +20,8 @@ ScnOf(ev) ==
                                     IF ev.model = "distance" THEN 0 ELSE ev.E[e][4]>>],   \* no time feature update
     hd |-> ev.hd, src |-> ev.src, dst |-> ev.dst, dir |-> ev.dir,
     wd |-> ev.wd, wt |-> ev.wt, rd |-> ev.rd, rt |-> ev.rt, sur |-> ev.sur, acc |-> ev.acc, delay |-> ev.delay,
-    ok |-> [e \in DOMAIN ev.E |-> IF ev.allowed_on THEN \E i \in DOMAIN ev.allowed : ev.allowed[i] = ev.cls[e]
-                                                   ELSE TRUE],
+    ok |-> [e \in DOMAIN ev.E |-> /\ (ev.allowed_on => \E i \in DOMAIN ev.allowed : ev.allowed[i] = ev.cls[e])
+                                   /\ (ev.veh_on => VehicleOK(ev.vrestr[e], ev.veh))],     \* every model must permit the edge
     bad |-> {<<ev.bad[i][1], ev.bad[i][2]>> : i \in DOMAIN ev.bad},
     h |-> ev.h, itl |-> ev.itl, szl |-> ev.szl, init |-> ev.init, ties |-> TRUE]
 
